@@ -68,6 +68,11 @@ func (streamBytes) AsString() (string, error) {
 	return mixins.Bytes{TypeName: "bytes"}.AsString()
 }
 func (n streamBytes) AsBytes() ([]byte, error) {
+	// Rewind first: the node is immutable, so every read must see the whole content,
+	// wherever an earlier AsBytes or AsLargeBytes reader left the stream.
+	if _, err := n.Seek(0, io.SeekStart); err != nil {
+		return nil, err
+	}
 	return io.ReadAll(n)
 }
 func (streamBytes) AsLink() (datamodel.Link, error) {
@@ -77,5 +82,8 @@ func (streamBytes) Prototype() datamodel.NodePrototype {
 	return Prototype__Bytes{}
 }
 func (n streamBytes) AsLargeBytes() (io.ReadSeeker, error) {
+	if _, err := n.Seek(0, io.SeekStart); err != nil {
+		return nil, err
+	}
 	return n.ReadSeeker, nil
 }
